@@ -31,6 +31,35 @@ def TerminalOk (listing : List (Bytes × NodeKind)) (nr : Nat) (out : Option Byt
 def AllDevices (listing : List (Bytes × NodeKind)) : Prop :=
   ∀ e ∈ listing, ∀ r, e.2 ≠ NodeKind.other r
 
+/-! ## the public process name: kernel name + command line -/
+
+/-- `argv[0]` as a path: an optional directory part, then the last component (no `/` in it) -/
+structure ExePath where
+  dir : Option Bytes
+  base : Bytes
+
+def ExePath.WF (p : ExePath) : Prop := 47 ∉ p.base
+
+def ExePath.render (p : ExePath) : Bytes :=
+  match p.dir with
+  | some d => d ++ [47] ++ p.base
+  | none => p.base
+
+/-- TASK_COMM_LEN - 1: a comm of this length may be the truncation of a longer name -/
+def commMax : Nat := 15
+
+/-- Documented behaviour of the public `Process.name()`: the kernel name (comm), except that a name
+    the kernel may have TRUNCATED (15 bytes) is replaced by the last path component of `argv[0]` when
+    that component starts with it ("gnome-keyring-d" → "gnome-keyring-daemon"). A name shorter than 15
+    bytes is never replaced: for it the result is the comm, byte for byte. -/
+def publicName (comm : Bytes) (arg0 : Option ExePath) : Bytes :=
+  match arg0 with
+  | some p => if commMax ≤ comm.length ∧ comm <+: p.base then p.base else comm
+  | none => comm
+
+/-- /proc/<pid>/cmdline: the arguments, each followed by a NUL -/
+def renderCmdline (args : List Bytes) : Bytes := (args.map fun a => a ++ [0]).flatten
+
 /-! ## /proc/stat -/
 
 /-- /proc/stat as far as boot time is concerned: `pre` = the lines the kernel prints before
